@@ -2899,8 +2899,13 @@ func TestZZVerifC07Trace(t *testing.T) {
 		}
 	}
 
-	if zzGetenv("VERIF_C07_SCANLOG") != "" {
-		zzC07ScanLog(t, x, emit, w)
+	if v := zzGetenv("VERIF_C07_SCANLOG"); v != "" {
+		scan, _ := strconv.Atoi(v)
+		if scan < 2 {
+			scan = zzC07DefaultScan
+		}
+
+		zzC07ScanLog(t, x, emit, w, scan)
 
 		return
 	}
@@ -3141,7 +3146,10 @@ func TestZZVerifC07Trace(t *testing.T) {
 // a search term selects at its old end, and the term is then searched through
 // the real handler by following the returned cursors.  VERIF_C07_MEM must be
 // larger than the number of records.
-func zzC07ScanLog(t *testing.T, x *zzC07Log, emit func(ev string, extra map[string]any), w *zzWriter) {
+//
+// scan is the scan limit of the requests: 50000 = the server's (plain HTTP
+// requests), anything else = the same history at that scale (serveScaled).
+func zzC07ScanLog(t *testing.T, x *zzC07Log, emit func(ev string, extra map[string]any), w *zzWriter, scan int) {
 	bulk := func(n int, name, cli, reason string) {
 		sh := zzC07ShapeFor(x.rng, reason)
 		for range n {
@@ -3162,7 +3170,7 @@ func zzC07ScanLog(t *testing.T, x *zzC07Log, emit func(ev string, extra map[stri
 	// first scan window of a request (50000 records) ends exactly on it.
 	bulk(1, "com", "plain", "notfound")
 	flush()
-	bulk(zzC07DefaultScan-1, "org", "plain", "notfound")
+	bulk(scan-1, "org", "plain", "notfound")
 	flush()
 	bulk(4, "sub", "cid", "notfound")
 	if x.discard != "" {
@@ -3172,7 +3180,7 @@ func zzC07ScanLog(t *testing.T, x *zzC07Log, emit func(ev string, extra map[stri
 	}
 
 	ask := func(q *zzC07Q) (r zzC07Reply) {
-		q.Scan = zzC07DefaultScan
+		q.Scan = scan
 		r = x.search(q)
 		if r.Data == nil {
 			r.Data = []int{}
